@@ -1,2 +1,57 @@
-From TV Require Import Base.
-Example C07_placeholder : True. Proof. exact I. Qed.
+(* C07 -- every interrupt is served promptly whenever it arrives.
+   Message-level model of the master scheduler.  What the model cannot exhibit: interleavings
+   finer than a handler (a delivery while callbacks are still queued) and real OS timers -- those
+   are explored by the step-injection sweep of the correspondence run.  For interrupts raised
+   inside nested systems the nested scheduler queues the component and raises on behalf of the
+   system (Model/Sim.v [raise_interrupt]); the system's Output then asks to be called back at once.
+   Property theorems only. *)
+From TV Require Import Base Model.Wiring Model.Ticker Model.Master Proofs.MasterP.
+Open Scope Z_scope.
+
+(* not lost: in any phase once the scheduler has started, the interrupt gives the component a
+   wakeup no later than the simulation time corresponding to its arrival -- and never later than a
+   wakeup that was already pending for it *)
+Theorem C07_not_lost : forall conns comps initial num den m r c m' outs,
+  step conns comps initial num den m r (IInterrupt c) = (m', outs) -> mp m <> PInit -> mp m <> PStopped ->
+  exists w, lookup c (mw m') = Some w /\ w <= stamp num den m r /\
+            (forall w0, lookup c (mw m) = Some w0 -> w <= w0).
+Proof. intros conns comps initial num den m r c m' outs. apply interrupt_owed. Qed.
+
+(* prompt: if no tick is running, the sleep the scheduler arms ends now -- it does not wait for
+   any other callback *)
+Theorem C07_prompt_when_idle : forall conns comps initial num den,
+  0 < num -> 0 < den -> forall m r c m' outs,
+  step conns comps initial num den m r (IInterrupt c) = (m', outs) -> ma_r m <= r ->
+  (mp m = PIdle \/ exists w0 r0 d0, mp m = PSleep w0 r0 d0) ->
+  exists when roots, mp m' = PSleep when roots r /\ outs = [OArm r] /\ when <= stamp num den m r.
+Proof. intros conns comps initial num den Hn Hd m r c m' outs. apply interrupt_prompt_when_idle; assumption. Qed.
+
+(* whenever the scheduler plans a sleep (after a tick, after any interrupt) it never sleeps past
+   the due time of ANY pending wakeup: a pending interrupt is delayed by tick processing only *)
+Theorem C07_never_sleeps_past_pending : forall num den, 0 < num -> 0 < den ->
+  forall m r c w m' outs, plan num den m r = (m', outs) -> In (c, w) (mw m) ->
+  exists when roots d, mp m' = PSleep when roots d /\ outs = [OArm d] /\ when <= w /\
+                       d <= Z.max r (due_real num den m w).
+Proof.
+  intros num den Hn Hd m r c w m' outs Hp Hin.
+  destruct (plan_never_sleeps_past num den Hn Hd m r c w m' outs Hp Hin) as [when [roots [d [H1 [H2 [H3 [_ H5]]]]]]].
+  exists when, roots, d. auto.
+Qed.
+
+(* a wakeup stamped during a tick is already due when that tick ends (its due time, measured from
+   the end of the PREVIOUS tick, is the arrival time of the interrupt) *)
+Theorem C07_due_at_once : forall num den, 0 < num -> 0 < den -> forall m r, ma_r m <= r ->
+  due_real num den m (stamp num den m r) <= r.
+Proof. intros num den Hn Hd m r Hr. apply stamp_due; assumption. Qed.
+
+(* the tick that serves it has the component among its roots (C06), and starts after the interrupt.
+   Example: interrupt at real time 10 during a tick that lasts from 0 to 20: served at 30 = 10 + the
+   duration of the tick in progress, although a callback for simulation time 1000 is pending *)
+Example C07_nonvacuous :
+  let '(m1, _) := step [] [3%positive; 4%positive] 0 1 1 (m_init 0) 0 IStart in
+  let '(m2, _) := step [] [3%positive; 4%positive] 0 1 1 m1 0 (IOutput 3%positive 0 [] (Some 1000)) in
+  let '(m3, o3) := step [] [3%positive; 4%positive] 0 1 1 m2 10 (IInterrupt 4%positive) in
+  let '(m4, o4) := step [] [3%positive; 4%positive] 0 1 1 m3 20 (IOutput 4%positive 0 [] None) in
+  let '(m5, o5) := step [] [3%positive; 4%positive] 0 1 1 m4 30 ITimer in
+  o3 = [] /\ o4 = [OTickEnd 0; OArm 30] /\ o5 = [OTickStart 10 [4%positive]; OAct (Upd 4%positive 10 [])].
+Proof. vm_compute. repeat split; reflexivity. Qed.
